@@ -1,7 +1,7 @@
 (* C10 -- forbid_extra_keys rejects exactly the unknown keys; without it extras are inert. *)
-From V.Model Require Import Base Templates.
+From V.Model Require Import Base Templates Tagged.
 From V.Gen Require Import GenSrc.
-From V.Proofs Require Import TemplatesProofs SrcObligationsGen.
+From V.Proofs Require Import TemplatesProofs SrcObligationsGen TaggedProofs.
 
 (* The accepted key set of a hook is [allowed]: the final key (rename, else alias
    under use_alias, else name) of every attribute the hook handles. *)
@@ -82,3 +82,17 @@ Example C10_nonvacuous :
     = Ok [(1, 5); (2, 6)]
   /\ tpl_detailed N c10_hs (c10_opt true) c10_ov c10_hs src_recheck c10_fs (dict_obj [(100, 5); (22, 6)]) = Ok [(1, 5); (2, 6)].
 Proof. vm_compute. repeat split. Qed.
+
+
+(* "The tag key of a tagged union is not an extra."  Over Model/Tagged.v (configure_tagged_union: which member hook receives which
+   dict): for EVERY union configuration (members, tag generator, tag name, default member or none) built on a converter that
+   forbids extra keys, and every payload that carries the tag key -- known tag, unknown tag with a default member -- the dict
+   handed to the member's hook is the payload with the tag key removed and every other key and value untouched.  So the member's
+   own extra-key check (C10_fast/detailed_error_names_exactly_the_extras above) is run on exactly the payload's other keys. *)
+Theorem C10_tag_key_is_not_an_extra :
+  forall (V : Type) (veq : V -> V -> bool) (c : tcfg V) (d d' : list (N * V)) (m : N),
+    tg_forbid c = true -> assoc d (tg_name c) <> None ->
+    structure_tagged V veq c d = Ok (m, d') ->
+    assoc d' (tg_name c) = None /\ forall k, k <> tg_name c -> assoc d' k = assoc d k.
+Proof. intros. eapply tag_key_is_not_an_extra; eassumption. Qed.
+Print Assumptions C10_tag_key_is_not_an_extra.
